@@ -53,6 +53,7 @@ var Profiles = map[string]*Profile{
 	"C08":  {Name: "C08", MaxOps: 8, UniqueMax: 1, IndexPct: 15, CasePct: 10},
 	"C10": {Name: "C10", MaxOps: 25, ForceAsync: true, AsyncOracles: true, UniqueMax: 1, IndexPct: 20, CasePct: 10,
 		W: map[string]int{"save": 30, "update": 30, "del": 14, "sdel": 5, "delall": 2, "flush": 10, "sleep": 8, "await": 12, "reopen": 5, "sweep": 3, "reads": 6, "create": 2, "many": 6, "bulk": 2}},
+	"C11": {Name: "C11", MaxOps: 10, UniqueMax: 1, IndexPct: 30, CasePct: 10, W: map[string]int{"save": 40, "update": 20, "del": 8, "sweep": 1, "reads": 1, "reopen": 2, "many": 6}},
 	"C13": {Name: "C13", MaxOps: 25, UniqueMax: 1, IndexPct: 60, CasePct: 10, W: map[string]int{"sweep": 20}},
 	"C14": {Name: "C14", MaxOps: 25, UniqueMax: 1, IndexPct: 20, CasePct: 10, Scribble: true, W: map[string]int{"sweep": 8, "reads": 10, "resave": 10}},
 	"C15": {Name: "C15", MaxOps: 20, UniqueMax: 1, IndexPct: 20, CasePct: 50, W: map[string]int{"many": 15, "bulk": 10}},
@@ -73,7 +74,7 @@ var Owns = map[string][]string{
 	"C08": {"linear", "race"},
 	"C09": {"deadlock"},
 	"C10": {"async", "read", "layout", "deadlock"},
-	"C11": {"control"},
+	"C11": {"control", "repair"},
 	"C12": {"async"},
 	"C13": {"order"},
 	"C14": {"alias"},
@@ -182,6 +183,8 @@ func Run(p Params) *Result {
 		r = RunIOFault(p)
 	case "conc":
 		r = RunConc(p)
+	case "repair":
+		r = RunRepair(p)
 	default:
 		return &Result{Params: p, Incon: "unknown scenario " + p.Scenario}
 	}
